@@ -138,10 +138,11 @@ type Run struct {
 	M      *model.Model
 	Steps  []*Step
 	uses   map[string]int
+	decls  map[string]string // declared pool function -> instance name in this run
 }
 
 func NewRun(cfg Config) *Run {
-	r := &Run{Cfg: cfg, RT: u.NewRuntime(), M: model.New(), uses: map[string]int{}}
+	r := &Run{Cfg: cfg, RT: u.NewRuntime(), M: model.New(), uses: map[string]int{}, decls: map[string]string{}}
 	opts := []dig.Option{dig.VerifEnv(1, r.RT.Clock)}
 	if cfg.Defer {
 		opts = append(opts, dig.DeferAcyclicVerification())
@@ -261,10 +262,25 @@ func (r *Run) callback(inst string) dig.Callback {
 	}
 }
 
+// makeFn returns the Go function for a spec: a declared pool function bound
+// to this run, or a reflect-made one.
+func (r *Run) makeFn(f *u.Func, inst string) interface{} {
+	if f.Decl != "" {
+		d := u.Declared(f.Decl)
+		d.Bind(r.RT, inst)
+		r.decls[f.Decl] = inst
+		return d.Fn
+	}
+	return r.RT.Make(f, inst)
+}
+
 // Apply executes one op and records the step.
 func (r *Run) Apply(op Op) *Step {
 	st := &Step{Op: op, LogFrom: len(r.RT.Log), Model: r.M.Clone()}
 	r.Steps = append(r.Steps, st)
+	for name, inst := range r.decls {
+		u.Declared(name).Bind(r.RT, inst) // another run may have re-bound the pool in between
+	}
 	if op.Scope < 0 || op.Scope >= len(r.Scopes) {
 		st.V = Verdict{Bad: true}
 		st.LogTo = len(r.RT.Log)
@@ -299,7 +315,7 @@ func (r *Run) Apply(op Op) *Step {
 				fn, po = op.Raw(r)
 			} else {
 				st.Inst = r.nextInst(op.Fn)
-				fn = r.RT.Make(op.Fn, st.Inst)
+				fn = r.makeFn(op.Fn, st.Inst)
 				po = r.ProvideOptions(op.Fn, st.Inst, st)
 			}
 			err = s.Provide(fn, po...)
@@ -310,7 +326,7 @@ func (r *Run) Apply(op Op) *Step {
 				fn, _ = op.Raw(r)
 			} else {
 				st.Inst = r.nextInst(op.Fn)
-				fn = r.RT.Make(op.Fn, st.Inst)
+				fn = r.makeFn(op.Fn, st.Inst)
 				if op.Fn.Callback {
 					do = append(do, dig.WithDecoratorCallback(r.callback(st.Inst)))
 				}
@@ -327,7 +343,7 @@ func (r *Run) Apply(op Op) *Step {
 				fn, _ = op.Raw(r)
 			} else {
 				st.Inst = r.nextInst(op.Fn)
-				fn = r.RT.Make(op.Fn, st.Inst)
+				fn = r.makeFn(op.Fn, st.Inst)
 				if op.Fn.Info {
 					st.IInfo = &dig.InvokeInfo{}
 					io = append(io, dig.FillInvokeInfo(st.IInfo))
